@@ -237,6 +237,9 @@ struct Setup {
     addr_mode: u8,
     geoip_mode: u8,
     ext_mode: u8,
+    /// how long host names are cached (`--dns-ttl`): 0 = the default (the shared resolver), 1 = not at all (0 s),
+    /// 2 = "for ever" (the largest duration the option accepts)
+    dns_ttl: u8,
 }
 
 impl Setup {
@@ -247,14 +250,15 @@ impl Setup {
             .map(|t| format!("{}{}f{}t{}p{}", if t.v6 { "v6" } else { "v4" }, if t.with_source { "s" } else { "" }, t.max_flows, t.first_ttl, t.proto))
             .collect();
         format!(
-            "setup[traces={} privacy={} max_addrs={} columns={} addr_mode={} geoip={} ext={}]",
+            "setup[traces={} privacy={} max_addrs={} columns={} addr_mode={} geoip={} ext={} dns_ttl={}]",
             tr.join("+"),
             opt(self.privacy),
             opt(self.max_addrs),
             self.columns,
             self.addr_mode,
             self.geoip_mode,
-            self.ext_mode
+            self.ext_mode,
+            self.dns_ttl
         )
     }
 }
@@ -761,7 +765,18 @@ fn new_live(ctx: &Ctx, setup: &Setup) -> Live {
         (Some(p), true) => GeoIpLookup::from_file(p, if setup.geoip_mode >= 8 { "de" } else { "en" }.to_string()).unwrap_or_else(|_| GeoIpLookup::empty()),
         _ => GeoIpLookup::empty(),
     };
-    let app = TuiApp::new(tui_config, ctx.resolver.clone(), geoip, traces);
+    // the resolver as `start_dns_resolver` makes it, with the cache lifetime the set-up asks for
+    let resolver = match setup.dns_ttl {
+        0 => ctx.resolver.clone(),
+        k => DnsResolver::start(trippy_dns::Config::new(
+            trippy_dns::ResolveMethod::System,
+            trippy_dns::IpAddrFamily::Ipv4thenIpv6,
+            Duration::from_millis(200),
+            if k == 1 { Duration::ZERO } else { Duration::from_secs(u64::MAX) },
+        ))
+        .unwrap_or_else(|_| ctx.resolver.clone()),
+    };
+    let app = TuiApp::new(tui_config, resolver, geoip, traces);
     Live { app, setup: setup.clone(), rounds: vec![0; setup.traces.len()], seq: 33000, marks: BTreeSet::new() }
 }
 
@@ -1073,6 +1088,7 @@ fn shrink_setup(ctx: &Ctx, setup: &Setup, ops: &[Op], site: &str) -> Setup {
         Box::new(|s| s.addr_mode = 0),
         Box::new(|s| s.geoip_mode = 0),
         Box::new(|s| s.ext_mode = 0),
+        Box::new(|s| s.dns_ttl = 0),
         Box::new(|s| s.traces.iter_mut().for_each(|t| t.proto = 0)),
         Box::new(|s| s.traces.iter_mut().for_each(|t| t.with_source = false)),
         Box::new(|s| s.traces.iter_mut().for_each(|t| t.v6 = false)),
@@ -1126,6 +1142,7 @@ fn gen_setup(rng: &mut Rng) -> Setup {
         addr_mode: rng.below(3) as u8,
         geoip_mode: rng.below(12) as u8,
         ext_mode: rng.below(4) as u8,
+        dns_ttl: if rng.chance(1, 12) { 1 + rng.below(2) as u8 } else { 0 },
     }
 }
 
@@ -1373,6 +1390,7 @@ fn simple_setup(ntraces: usize, max_flows: usize) -> Setup {
         addr_mode: 0,
         geoip_mode: 0,
         ext_mode: 0,
+        dns_ttl: 0,
     }
 }
 
@@ -1419,6 +1437,9 @@ fn directed() -> Vec<(&'static str, Setup, Vec<Op>)> {
         ("geoip-map-privacy-3-long", geo(Some(3), 2), walk(6)),
         ("geoip-map-privacy-4-location", geo(Some(4), 3), walk(6)),
         ("geoip-map-privacy-off", geo(None, 1), walk(6)),
+        // host names cached "for ever" and not at all: frames before and after the names have arrived
+        ("dns-ttl-for-ever", Setup { dns_ttl: 2, ..simple_setup(1, 64) }, walk(4)),
+        ("dns-ttl-zero", Setup { dns_ttl: 1, ..simple_setup(1, 64) }, walk(4)),
         // two hops of one city at different positions, the first of them hidden
         ("geoip-map-same-city-hidden-and-shown", geo(Some(7), 2), {
             let ten = [c(0), c(0), c(0), c(0), c(0), c(0), c(0), c(0), c(0), c(0)];
